@@ -369,10 +369,23 @@ class Packed:
     def __init__(self):
         self.slots = {q: AArr() for q in range(NEQ)}
 
+    cols = False
+
     def __rmul__(self, s):
         p = Packed()
         p.slots = {q: a * s for q, a in self.slots.items()}
         return p
+
+    def reshape(self, *shape):
+        """v.reshape(-1, neq): a VIEW with one column per variable, column q == v[q::neq]"""
+        if len(shape) == 1 and isinstance(shape[0], tuple):
+            shape = shape[0]
+        if tuple(shape) != (-1, NEQ):
+            raise AnalysisError("packed vector reshaped to %r: not the (cells, variables) table" % (shape,))
+        v = Packed()
+        v.slots = self.slots          # shared: a view
+        v.cols = True
+        return v
 
 
 class Idx:
@@ -791,7 +804,7 @@ class AffInterp:
         elif isinstance(o, CArr) and isinstance(idx, int):
             o.vals[idx] = v
         elif isinstance(o, Packed):
-            q = self.slot(idx, func, node)
+            q = self.slot(idx, func, node, o)
             if isinstance(v, AArr):
                 o.slots[q] = v.copy()
             else:
@@ -808,8 +821,12 @@ class AffInterp:
         else:
             raise AnalysisError("%s:%d unsupported item store" % (func.qualname, node.lineno))
 
-    def slot(self, idx, func, node):
-        """interleaved layout v[q::neq] -> q"""
+    def slot(self, idx, func, node, o=None):
+        """interleaved layout v[q::neq] -> q   (table view v.reshape(-1, neq): [:, q] -> q)"""
+        if getattr(o, "cols", False):
+            if isinstance(idx, tuple) and len(idx) == 2 and idx[0] == slice(None, None, None) and isinstance(idx[1], int) and 0 <= idx[1] < NEQ:
+                return idx[1]
+            raise AnalysisError("%s:%d access to the (cells, variables) table is not a whole column [:, q]: %s" % (func.qualname, node.lineno, unparse(node)))
         if isinstance(idx, slice) and isinstance(idx.start, int) and idx.stop is None and idx.step == NEQ and 0 <= idx.start < NEQ:
             return idx.start
         raise AnalysisError("%s:%d packed-vector access is not the interleaved layout [q::neq]: %s" % (func.qualname, node.lineno, unparse(node)))
@@ -828,7 +845,7 @@ class AffInterp:
             o = self.eval(t.value, env, func)
             idx = self.index(t.slice, env, func)
             if isinstance(o, Packed):
-                q = self.slot(idx, func, t)
+                q = self.slot(idx, func, t, o)
                 o.slots[q] = self.inplace(st.op, o.slots[q], rhs, func, st)
                 return
             cur = self.getitem(o, idx, func, t)
@@ -933,6 +950,8 @@ class AffInterp:
             return NpRef(o.name + "." + a)
         if isinstance(o, AArr) and a == "copy":
             return o.copy
+        if isinstance(o, Packed) and a == "reshape":
+            return o.reshape
         if isinstance(o, CArr) and a == "size":
             return o.size
         if isinstance(o, list) and a == "append":
@@ -965,7 +984,7 @@ class AffInterp:
         if isinstance(o, CArr) and isinstance(idx, slice) and all(x is None or isinstance(x, int) for x in (idx.start, idx.stop, idx.step)):
             return CArr(o.vals[idx])
         if isinstance(o, Packed):
-            return o.slots[self.slot(idx, func, node)].copy()
+            return o.slots[self.slot(idx, func, node, o)].copy()
         if isinstance(o, dict):
             return o[idx]
         if isinstance(o, S) and isinstance(idx, tuple) and len(idx) == 2 and o.vec is not None:
